@@ -203,3 +203,9 @@ func evalBoolResult(p *core.Path, param *ssa.Parameter, arg int64) (bool, bool) 
 	}
 	return constant.BoolVal(v), true
 }
+
+// isW: like is, but also matches the canonical (widening-stripped) form that comparisons use.
+func isW(x *core.Explorer, t *core.Term) func(*core.Term) bool {
+	w := x.StripWiden(t)
+	return func(y *core.Term) bool { return y == t || y == w }
+}
